@@ -139,6 +139,16 @@ class JoinModel:
             o = self.it.objs[t[1]]
             if o.kind == "list" and isinstance(o.node, ast.Call) and len(o.init) == 1:
                 return self.colseq(o.init[0])
+            if o.kind == "list" and isinstance(o.node, ast.List) and o.init and all(x[0] == "star" for x in o.init) \
+                    and not self.it._mutated(t):
+                # [*left_cols, *right_cols]: a list display of starred column sequences, never changed afterwards
+                out2: List[str] = []
+                for x in o.init:
+                    r = self.colseq(x[1])
+                    if r is None:
+                        return None
+                    out2 += r
+                return out2
         return None
 
     def rows_of(self, t: Term) -> Optional[str]:
@@ -206,7 +216,10 @@ class JoinModel:
         if self.RD is None:
             return None
         if x == self.RD:
-            return ("buf", ZERO, self.T)
+            return ("buf", ZERO, self.T if not self.RD_more else self.RD_first)
+        for t_, lo_, hi_ in self.RD_more:
+            if x == t_:
+                return ("buf", lo_, hi_)
         if x[0] == "sub" and x[2][0] == "slice" and x[2][3] == NONE:
             b = self.bufseq(x[1])
             if b is None:
@@ -308,6 +321,11 @@ class JoinModel:
         self.RD: Optional[Term] = None
         self.T: Optional[Lin] = None
         self.rebinds: List[Tuple[Event, str]] = []
+        # further lists of empty result buffers created after the first one (left_data / right_data): laid out one after the other
+        # in creation order - positions [0, n1), [n1, n1 + n2), ...
+        self.RD_more: List[Tuple[Term, Lin, Lin]] = []
+        self.RD_first: Optional[Lin] = None
+        more_evs = []
         for e in it.events:
             if e.kind == "elem" and e.value[0] == "obj" and it.objs[e.value[1]].kind == "list" \
                     and isinstance(it.objs[e.value[1]].node, ast.List) and not it.objs[e.value[1]].init \
@@ -321,12 +339,26 @@ class JoinModel:
                     if t1 is not None and t1 == t2:
                         self.rebinds.append((e, t2))
                         continue
+                    if t2 is not None and e.conds == self.RD_ev.conds and not any(e.term == m[0] for m in more_evs):
+                        more_evs.append((e.term, e))
+                        continue
                     self._err("more than one list of empty result buffers")
                 self.RD, self.RD_ev = e.term, e
         if self.RD is None:
             self._err("column-major result buffers ([[] for _ in range(...)]) not found")
         rd_loops = [L for L in self.RD_ev.loops if L not in it.objs[self.RD[1]].loops]
         self.T = self.count(rd_loops[0]) if len(rd_loops) == 1 else None
+        if more_evs:
+            self.RD_first = self.T
+            pos = self.T
+            for t_, e_ in more_evs:
+                ls_ = [L for L in e_.loops if L not in it.objs[t_[1]].loops]
+                n_ = self.count(ls_[0]) if len(ls_) == 1 else None
+                if pos is None or n_ is None:
+                    self._err("result buffer lists of unknown size")
+                self.RD_more.append((t_, pos, lin_add(pos, n_)))
+                pos = lin_add(pos, n_)
+            self.T = pos
         # index: the dict written under a key tuple (which side's keys / which row is for the rules to judge) ------------
         self.index: Optional[Term] = None
         self.index_loop: Optional[int] = None
@@ -348,6 +380,18 @@ class JoinModel:
             # several dicts keyed by join keys: the index is the one keyed by the RIGHT keys (a structure keyed by left keys is
             # not part of a hash join that emits in probe order - the buffer rules will say so)
             dicts = {c[0] for c in cands_idx if c[1] == "R"}
+        if len(dicts) > 1:
+            # several dicts keyed by the right keys: the index is the one whose entries START as a fresh list holding the current row
+            # position (index[key] = [row]); a dict that merely records an existing bucket under its key (duplicates[key] = bucket)
+            # is bookkeeping for the cardinality checks
+            fresh = set()
+            for e in it.events:
+                if e.kind == "store" and e.term[0] == "sub" and e.term[1] in dicts and e.value is not None and e.value[0] == "obj" \
+                        and it.objs[e.value[1]].kind == "list" and len(it.objs[e.value[1]].init) == 1 \
+                        and it.objs[e.value[1]].init[0][0] in ("idx", "elem"):
+                    fresh.add(e.term[1])
+            if len(fresh) == 1:
+                dicts = fresh
         if len(dicts) != 1:
             self._err(f"hash index not found ({len(dicts)} dicts keyed by tuple(col[row] for col in <keys>))")
         self.index = dicts.pop()
@@ -376,9 +420,18 @@ class JoinModel:
             self._err(f"the index is probed in {len({c[0] for c in cands})} loops with {len({c[1] for c in cands})} different lookups")
         self.probe_loop, self.bucket = cands[0]
         # matched loops: loops over the bucket -----------------------------------------------------
-        self.matched_loops = [lp.id for lp in it.loops.values() if lp.iter == self.bucket and self.probe_loop in lp.parents]
+        def over_bucket(t) -> bool:
+            """the bucket itself, or `bucket or ()` / `bucket or []` (nothing to walk when the key has no bucket)"""
+            if t == self.bucket:
+                return True
+            if t is not None and t[0] == "bool" and t[1] == "or" and len(t[2]) == 2 and t[2][0] == self.bucket:
+                alt = t[2][1]
+                return alt == ("tuple", ()) or (alt[0] == "obj" and it.objs[alt[1]].kind == "list" and not it.objs[alt[1]].init
+                                                and not it._mutated(alt))
+            return False
+        self.matched_loops = [lp.id for lp in it.loops.values() if over_bucket(lp.iter) and self.probe_loop in lp.parents]
         self.bucket_wrapped = [lp for lp in it.loops.values()
-                               if lp.iter is not None and lp.iter != self.bucket and self.probe_loop in lp.parents
+                               if lp.iter is not None and not over_bucket(lp.iter) and self.probe_loop in lp.parents
                                and any(t == self.bucket for t in subterms(lp.iter))]
         # matched set and sweep (full join) -------------------------------------------------------
         self.sweep_loop: Optional[int] = None
@@ -479,8 +532,9 @@ class JoinModel:
                 side = self.rows_of(lp.range[1])
                 if side:
                     return ("LEFT" if side == "L" else "RIGHT", lp.id, "scan")
-        if r[0] == "elem" and r[1] == self.bucket and self.bucket is not None:
-            return ("RIGHT", r[2], "bucket")
+        if r[0] == "elem" and self.bucket is not None and (r[1] == self.bucket or (
+                r[2] in self.it.loops and r[2] in getattr(self, "matched_loops", ()) and r[1] == self.it.loops[r[2]].iter)):
+            return ("RIGHT", r[2], "bucket")          # (also an element of `bucket or ()`: the loop is a matched loop)
         return ("?", None, "")
 
     # ---- emissions ---------------------------------------------------------------------------
